@@ -57,7 +57,7 @@ Print Assumptions C12_merge_on_items.
    rows of one statement merge different property maps on one (src,type,dst) — the later row
    overwrites the shared map, so the repeated statement creates again (known finding
    K-C12-relidentity).  Keys: node ids 0 -> 0, type 0; property 0 = 1, then 2. *)
-Definition w_relid : stmt := UMergeRel [((0, 0, 0), [(0, OInt 1)], [], []); ((0, 0, 0), [(0, OInt 2)], [], [])].
+Definition w_relid : stmt := UMergeRel [((0, 0, 0), 0, [(0, OInt 1)], [], []); ((0, 0, 0), 0, [(0, OInt 2)], [], [])].
 Definition C12_merge_rel_refuted_statement : Prop :=
   match exec g0 (UCreateNode [([], [])]) with
   | Done g _ =>
@@ -70,6 +70,26 @@ Definition C12_merge_rel_refuted_statement : Prop :=
 Theorem C12_merge_rel_refuted : C12_merge_rel_refuted_statement.
 Proof. vm_compute. repeat split. Qed.
 Print Assumptions C12_merge_rel_refuted.
+
+(* direction: an undirected MERGE (b)-[:R]-(a) and a right-to-left MERGE (b)<-[:R]-(a) find the
+   relationship stored as a -> b and create nothing; (b)-[:R]->(a) does not match it and creates b -> a *)
+Definition C12_merge_rel_direction_statement : Prop :=
+  match exec g0 (UCreateNode [([], []); ([], [])]) with
+  | Done g _ =>
+      match exec g (UCreateRel [(0, 0, 1, [])]) with
+      | Done g1 _ =>
+          exec g1 (UMergeRel [((1, 0, 0), 2, [], [], [])]) = Done g1 0 /\
+          exec g1 (UMergeRel [((1, 0, 0), 1, [], [], [])]) = Done g1 0 /\
+          exec g1 (UMergeRel [((0, 0, 1), 2, [], [], [])]) = Done g1 0 /\
+          match exec g1 (UMergeRel [((1, 0, 0), 0, [], [], [])]) with
+          | Done g2 c => c = 1 /\ length (gr g2) = 2%nat
+          | Failed => False end
+      | Failed => False end
+  | Failed => False
+  end.
+Theorem C12_merge_rel_direction : C12_merge_rel_direction_statement.
+Proof. vm_compute. repeat split. Qed.
+Print Assumptions C12_merge_rel_direction.
 
 (* chained clauses in one statement: SET n.k = v REMOVE n.k leaves what REMOVE n.k leaves *)
 Definition C12_chain_set_remove_statement : Prop :=
